@@ -2,8 +2,8 @@
   C20 — sequence state and relation-map files are reported exactly.
   Property theorems only; helper lemmas are in Proofs/Sequence.lean and Proofs/Relmap.lean.
   The sequence model is that of sequence.go with the repairs 05–07 of /verif/fixes/control applied; the
-  `witness_*` theorems show the defects on the model of the code as written.  relmap.go: with fixes/control/09
-  (both layouts: PostgreSQL 12–15 and 16); FindSequences with fixes/control/08 (filenode order).
+  `witness_*` theorems show the defects on the model of the code as written.  relmap.go: with fixes/control/09, 21
+  (both layouts: PostgreSQL 12–15 and 16, told apart by the stored crc); FindSequences with fixes/control/08 (filenode order).
 -/
 import PgVerif.Proofs.Sequence
 import PgVerif.Proofs.Relmap
@@ -89,33 +89,142 @@ example : Model.findSequences exEnv "D" [100] =
         subst this; decide +kernel)
   exact this
 
-/-- Relation map, PostgreSQL 12–15 layout (62 slots, crc at 504, 4 bytes of padding: 512 bytes).  For every well-formed
-map (0..62 mappings of arbitrary 32-bit oids and filenodes, duplicates allowed, any unused slots, any stored crc, any
-padding) followed by any tail that does not make the file exactly 524 bytes long (files of 512 bytes and longer —
-a genuine file has no tail), ParseRelMapFile reports the magic, the count, the mappings in stored order and the stored
-crc.  (A 524-byte file is read as the PostgreSQL 16 layout — `C20_relmap_v16`; PostgreSQL itself writes and reads exactly
-sizeof(RelMapFile) bytes, so a 12–15 file with 12 trailing bytes does not occur.) -/
-theorem C20_relmap (m : RelMap) (h : m.WF) (tail : Bytes) (ht : tail.length ≠ 12) :
+/-! ### relation map
+
+Two layouts with the same magic (PostgreSQL 12–15: 62 slots, crc at 504, 4 bytes of padding, 512 bytes; PostgreSQL 16:
+64 slots, crc at 520, 524 bytes).  Since fixes/control/21 the layout is asked of the image, not of its length
+(`relMapIsV16`): fewer than 524 bytes → 12–15; a count above 62 → 16; else the layout whose stored CRC-32C verifies
+(`Spec.relmapCrcOk`, PostgreSQL's own check; 16 first); when neither verifies, the exact size.  "The expected report"
+below = the magic, the count, the mappings in stored order and the stored crc. -/
+
+/-- Relation map, PostgreSQL 12–15 layout.  For every well-formed map (0..62 mappings of arbitrary 32-bit oids and
+filenodes, duplicates allowed, any unused slots, any padding) that is INTACT (the stored crc is the CRC-32C of the 504
+bytes before it — what PostgreSQL writes and demands), followed by ANY tail (a file read into a larger buffer, a padded
+copy, 12 bytes that make it 524 long …), ParseRelMapFile gives the expected report — unless the same bytes are also a
+valid PostgreSQL 16 image (`h16`: they verify at 520 too).  That carve-out is inherent, not a defect: the image then IS,
+member by member, an intact 16 map (`C20_relmap_overlap`), and it does occur (`C20_relmap_collision`). -/
+theorem C20_relmap (m : RelMap) (h : m.WF) (hi : m.Intact .v12) (tail : Bytes)
+    (h16 : relmapCrcOk .v16 (encRelMap m ++ tail) = false) :
     Model.parseRelMapFile (encRelMap m ++ tail) =
       .ok (some { magic := relmapMagic, numMappings := m.mappings.length, mappings := m.mappings.map toMapping, crc := m.crc }) :=
-  parseRelMapFile_enc m h tail ht
+  parseRelMapFile_enc m h tail (isV16Of_enc12 m h tail h16 (Or.inl hi))
+
+/-- a three-mapping map with the crc PostgreSQL stores -/
+def exMap12 : RelMap := Gen.withTrueCrc (RelMap.mk [(1262, 1262), (1259, 16384), (1262, 7)] (zeros (8 * 59)) 0 (zeros 4))
+
+set_option maxRecDepth 100000 in
+/-- non-vacuity: it is well-formed and intact, and padded with zeros to 600 bytes it does not verify as a 16 image -/
+example : exMap12.WF ∧ exMap12.Intact .v12 ∧ relmapCrcOk .v16 (encRelMap exMap12 ++ zeros 88) = false := by decide +kernel
+
+/-- The genuine file (and anything up to 523 bytes), unconditionally: a well-formed 12–15 map with ANY stored crc (valid
+or not) followed by fewer than 12 bytes gets the expected report.  PostgreSQL writes exactly 512 bytes. -/
+theorem C20_relmap_file (m : RelMap) (h : m.WF) (tail : Bytes) (ht : tail.length < 12) :
+    Model.parseRelMapFile (encRelMap m ++ tail) =
+      .ok (some { magic := relmapMagic, numMappings := m.mappings.length, mappings := m.mappings.map toMapping, crc := m.crc }) :=
+  parseRelMapFile_enc m h tail (isV16Of_enc12_short m h tail ht)
 
 set_option maxRecDepth 100000 in
 example : (RelMap.mk [(1262, 1262), (1259, 16384), (1262, 7)] (zeros (8 * 59)) 0xDEADBEEF (zeros 4)).WF := by decide +kernel
 
-/-- Relation map, PostgreSQL 16 layout (64 slots, crc at 520, no padding: 524 bytes; fixes/control/09).  For every
-well-formed map (0..64 mappings, any unused slots, any stored crc), ParseRelMapFile on the 524-byte file reports the magic,
-the count, the mappings in stored order and the stored crc. -/
-theorem C20_relmap_v16 (m : RelMap) (h : m.WF16) :
-    Model.parseRelMapFile (encRelMap m) =
+/-- A damaged 12–15 file (any stored crc) in a longer buffer: as long as the bytes do not verify as a 16 image and the
+buffer is not exactly 524 bytes long (the size of a 16 file — there the size decides, as before fixes/control/21), the
+expected report, with the stored (wrong) crc. -/
+theorem C20_relmap_damaged (m : RelMap) (h : m.WF) (tail : Bytes) (ht : tail.length ≠ 12)
+    (h16 : relmapCrcOk .v16 (encRelMap m ++ tail) = false) :
+    Model.parseRelMapFile (encRelMap m ++ tail) =
       .ok (some { magic := relmapMagic, numMappings := m.mappings.length, mappings := m.mappings.map toMapping, crc := m.crc }) :=
-  parseRelMapFile_enc16 m h
+  parseRelMapFile_enc m h tail (isV16Of_enc12 m h tail h16 (Or.inr ht))
+
+set_option maxRecDepth 100000 in
+example : (RelMap.mk [(5, 6)] (zeros (8 * 61)) 0xDEADBEEF (zeros 4)).WF ∧
+    relmapCrcOk .v16 (encRelMap (RelMap.mk [(5, 6)] (zeros (8 * 61)) 0xDEADBEEF (zeros 4)) ++ zeros 13) = false := by
+  decide +kernel
+
+/-- Relation map, PostgreSQL 16 layout (fixes/control/09, 21).  For every well-formed INTACT 16 map (0..64 mappings, any
+unused slots, the crc PostgreSQL stores) followed by ANY tail — none (the genuine 524-byte file), one byte, zero padding to
+8 KiB — the expected report.  No side condition: the 16 check is tried first. -/
+theorem C20_relmap_v16 (m : RelMap) (h : m.WF16) (hi : m.Intact .v16) (tail : Bytes) :
+    Model.parseRelMapFile (encRelMap m ++ tail) =
+      .ok (some { magic := relmapMagic, numMappings := m.mappings.length, mappings := m.mappings.map toMapping, crc := m.crc }) :=
+  parseRelMapFile_enc16 m h tail (isV16Of_enc16 m h tail (Or.inl hi))
+
+/-- a PostgreSQL 16 map with 2 mappings and the crc PostgreSQL stores -/
+def exMap16 : RelMap := Gen.withTrueCrc (RelMap.mk [(1262, 1262), (1259, 16384)] (zeros (8 * 62)) 0 [])
+
+set_option maxRecDepth 100000 in
+example : exMap16.WF16 ∧ exMap16.Intact .v16 ∧ (encRelMap exMap16).length = 524 := by decide +kernel
+
+/-- … and 63 or 64 mappings fit no other layout: whatever the stored crc and whatever follows. -/
+theorem C20_relmap_v16_full (m : RelMap) (h : m.WF16) (hn : m.mappings.length > 62) (tail : Bytes) :
+    Model.parseRelMapFile (encRelMap m ++ tail) =
+      .ok (some { magic := relmapMagic, numMappings := m.mappings.length, mappings := m.mappings.map toMapping, crc := m.crc }) :=
+  parseRelMapFile_enc16 m h tail (isV16Of_enc16 m h tail (Or.inr (Or.inl hn)))
 
 set_option maxRecDepth 100000 in
 /-- non-vacuity: a PostgreSQL 16 map with 64 mappings, 524 bytes long -/
 example : (RelMap.mk ((List.range 64).map fun i => (1000 + i, 2000 + i)) [] 0x15E3B201 []).WF16 ∧
-    (encRelMap (RelMap.mk ((List.range 64).map fun i => (1000 + i, 2000 + i)) [] 0x15E3B201 [])).length = 524 := by
+    (encRelMap (RelMap.mk ((List.range 64).map fun i => (1000 + i, 2000 + i)) [] 0x15E3B201 [])).length = 524 ∧
+    (RelMap.mk ((List.range 64).map fun i => (1000 + i, 2000 + i)) [] 0x15E3B201 []).mappings.length > 62 := by
   decide +kernel
+
+/-- A damaged 16 file (any stored crc) of exactly 524 bytes: the expected report, with the stored (wrong) crc — unless the
+bytes verify as a 12–15 image (`h12`; the same inherent overlap, seen from the other side). -/
+theorem C20_relmap_v16_damaged (m : RelMap) (h : m.WF16) (h12 : relmapCrcOk .v12 (encRelMap m) = false) :
+    Model.parseRelMapFile (encRelMap m) =
+      .ok (some { magic := relmapMagic, numMappings := m.mappings.length, mappings := m.mappings.map toMapping, crc := m.crc }) := by
+  have := parseRelMapFile_enc16 m h [] (isV16Of_enc16 m h [] (Or.inr (Or.inr ⟨rfl, by simpa using h12⟩)))
+  simpa using this
+
+set_option maxRecDepth 100000 in
+example : (RelMap.mk [(1262, 1262), (1259, 16384)] (zeros (8 * 62)) 0x15E3B201 []).WF16 ∧
+    relmapCrcOk .v12 (encRelMap (RelMap.mk [(1262, 1262), (1259, 16384)] (zeros (8 * 62)) 0x15E3B201 [])) = false := by
+  decide +kernel
+
+/-- The layouts overlap byte for byte.  The image of ANY well-formed 12–15 map followed by at least 12 bytes is, member
+by member, the image of a well-formed 16 map with the same mappings (slots 62 and 63 = the old crc, padding and the next 8
+bytes; crc = the four bytes at 520) followed by the rest.  So nothing in the bytes but the crc tells the layouts apart, and
+the carve-outs `h16` / `h12` above are inherent. -/
+theorem C20_relmap_overlap (m : RelMap) (h : m.WF) (tail : Bytes) (ht : 12 ≤ tail.length) :
+    (as16 m tail).WF16 ∧ (as16 m tail).mappings = m.mappings ∧
+    encRelMap m ++ tail = encRelMap (as16 m tail) ++ tail.drop 12 :=
+  ⟨as16_wf m h tail ht, rfl, as16_enc m tail ht⟩
+
+/-- The corner is inhabited — for EVERY intact 12–15 map and every 8 bytes `t8`: the 524-byte image
+map ++ t8 ++ CRC-32C(map ++ t8) verifies under BOTH layouts; it is an intact 12–15 file with 12 trailing bytes and an
+intact 16 file at once, and ParseRelMapFile reads it as the 16 one (crc = the last four bytes), where the 12–15 reading
+has crc = `m.crc`.  No reader can do better on these bytes. -/
+theorem C20_relmap_collision (m : RelMap) (h : m.WF) (hi : m.Intact .v12) (t8 : Bytes) (h8 : t8.length = 8) :
+    relmapCrcOk .v12 (encRelMap m ++ (t8 ++ le 4 (crc32c (encRelMap m ++ t8)))) = true ∧
+    relmapCrcOk .v16 (encRelMap m ++ (t8 ++ le 4 (crc32c (encRelMap m ++ t8)))) = true ∧
+    Model.parseRelMapFile (encRelMap m ++ (t8 ++ le 4 (crc32c (encRelMap m ++ t8)))) =
+      .ok (some { magic := relmapMagic, numMappings := m.mappings.length, mappings := m.mappings.map toMapping,
+                  crc := crc32c (encRelMap m ++ t8) }) := by
+  obtain ⟨c12, c16⟩ := collision_both m h hi t8 h8
+  refine ⟨c12, c16, ?_⟩
+  have ht : 12 ≤ (t8 ++ le 4 (crc32c (encRelMap m ++ t8))).length := by simp [h8]
+  have hd : (t8 ++ le 4 (crc32c (encRelMap m ++ t8))).drop 12 = [] := by
+    apply List.drop_eq_nil_of_le; simp [h8]
+  have hw := as16_wf m h _ ht
+  have he := as16_enc m _ ht
+  rw [hd] at he
+  have hint : (as16 m (t8 ++ le 4 (crc32c (encRelMap m ++ t8)))).Intact .v16 := by
+    have := enc16_crcOk16 _ hw []
+    rw [← he, c16] at this
+    unfold RelMap.Intact
+    exact (beq_iff_eq.mp this.symm)
+  have hp := parseRelMapFile_enc16 _ hw [] (isV16Of_enc16 _ hw [] (Or.inl hint))
+  rw [← he] at hp
+  rw [hp]
+  have hc : (as16 m (t8 ++ le 4 (crc32c (encRelMap m ++ t8)))).crc = crc32c (encRelMap m ++ t8) := by
+    show rd 4 ((t8 ++ le 4 (crc32c (encRelMap m ++ t8))).drop 8) = _
+    rw [List.drop_left' h8]
+    have := rd_le 4 (crc32c (encRelMap m ++ t8)) [] (crc32c_lt _)
+    simpa using this
+  rw [hc]; rfl
+
+set_option maxRecDepth 100000 in
+/-- on the example map the two readings differ: the 16 reading's crc is not the stored 12–15 crc -/
+example : exMap12.WF ∧ exMap12.Intact .v12 ∧ crc32c (encRelMap exMap12 ++ zeros 8) ≠ exMap12.crc := by decide +kernel
 
 /-- the defect fixes/control/09 removes (REVIEW B7), on the model of the code as written: on a PostgreSQL 16 file with two
 mappings and stored crc 0x15E3B201 it reported the mapoid of slot 62 (here 0) as the crc -/
@@ -128,21 +237,72 @@ theorem witness_B7_count :
     Model.Orig.parseRelMapFile (encRelMap (RelMap.mk ((List.range 64).map fun i => (1000 + i, 2000 + i)) [] 7 [])) = .ok none := by
   decide +kernel
 
-/-- Rejection, for every byte string: a file shorter than 512 bytes, a wrong magic, or a count that is negative or
-above the layout's maximum (64 in a 524-byte file, 62 otherwise) is rejected … -/
-theorem C20_relmap_reject (bs : Bytes)
-    (h : bs.length < 512 ∨ rdAt 4 0 bs ≠ 0x592717 ∨ toSigned 32 (rdAt 4 4 bs) < 0 ∨
-      toSigned 32 (rdAt 4 4 bs) > maxCountFor bs.length) :
-    Model.parseRelMapFile bs = .ok none :=
-  parseRelMapFile_reject bs h
+set_option maxRecDepth 100000 in
+/-- the defect fixes/control/21 removes, on the model of the code between patches 09 and 21 (layout by `len(data) == 524`):
+the intact 16 map `exMap16` followed by one byte (or zero-padded to 8 KiB: family relmap #120) was read with the 12–15
+layout — the mapoid of slot 62 (here 0) reported as the crc — where the repaired code reports the stored crc -/
+theorem witness_R21_crc :
+    (Model.Orig.parseRelMapFileBySize (encRelMap exMap16 ++ [0])).map (fun r => r.map (·.crc)) = .ok (some 0) ∧
+    (Model.parseRelMapFile (encRelMap exMap16 ++ [0])).map (fun r => r.map (·.crc)) = .ok (some exMap16.crc) ∧
+    exMap16.crc ≠ 0 := by
+  refine ⟨by decide +kernel, ?_, by decide +kernel⟩
+  rw [C20_relmap_v16 exMap16 (by decide +kernel) (by decide +kernel) [0]]; rfl
 
-/-- … and whatever is accepted has at least 512 bytes, the magic and a count in 0..62 (0..64 in a 524-byte file). -/
+set_option maxRecDepth 100000 in
+/-- … and 64 mappings followed by one byte (family relmap #121) were rejected ("invalid number of mappings: 64") -/
+theorem witness_R21_count :
+    Model.Orig.parseRelMapFileBySize (encRelMap (RelMap.mk ((List.range 64).map fun i => (1000 + i, 2000 + i)) [] 7 []) ++ [0]) = .ok none ∧
+    ∃ rm, Model.parseRelMapFile (encRelMap (RelMap.mk ((List.range 64).map fun i => (1000 + i, 2000 + i)) [] 7 []) ++ [0]) = .ok (some rm) ∧
+      rm.numMappings = 64 := by
+  refine ⟨by decide +kernel, _, C20_relmap_v16_full _ (by decide +kernel) (by decide +kernel) [0], rfl⟩
+
+/-- Acceptance, for EVERY byte string: ParseRelMapFile returns a map iff the image has at least 512 bytes, the magic
+0x592717 and a possible count — `Spec.relmapCountOk`: 0 ≤ count ≤ MAX_MAPPINGS of a layout whose struct fits in the
+image (0..62 from 512 bytes on, 0..64 from 524 bytes on).  Images with a wrong magic or an impossible count are
+rejected, and nothing else is. -/
+theorem C20_relmap_accept_iff (bs : Bytes) :
+    (∃ rm, Model.parseRelMapFile bs = .ok (some rm)) ↔
+      512 ≤ bs.length ∧ rdAt 4 0 bs = 0x592717 ∧ relmapCountOk bs.length (toSigned 32 (rdAt 4 4 bs)) :=
+  parseRelMapFile_accept_iff bs
+
+/-- Rejection: a file shorter than 512 bytes, a wrong magic or an impossible count gives the error return (no panic). -/
+theorem C20_relmap_reject (bs : Bytes)
+    (h : bs.length < 512 ∨ rdAt 4 0 bs ≠ 0x592717 ∨ ¬ relmapCountOk bs.length (toSigned 32 (rdAt 4 4 bs))) :
+    Model.parseRelMapFile bs = .ok none := by
+  obtain ⟨r, hr⟩ := parseRelMapFile_total bs
+  cases r with
+  | none => exact hr
+  | some rm =>
+    obtain ⟨a1, a2, a3⟩ := (parseRelMapFile_accept_iff bs).mp ⟨rm, hr⟩
+    rcases h with h | h | h
+    · omega
+    · exact absurd a2 h
+    · exact absurd a3 h
+
+example : ¬ relmapCountOk 8192 (toSigned 32 (2 ^ 32 - 1)) ∧ ¬ relmapCountOk 512 63 ∧ ¬ relmapCountOk 8192 65 := by decide
+
+/-- … and whatever is accepted has at least 512 bytes, the magic, the stored count, which is a possible one, and no
+more mappings than the count. -/
 theorem C20_relmap_accept (bs : Bytes) (rm : Model.RelMapFile) (h : Model.parseRelMapFile bs = .ok (some rm)) :
-    bs.length ≥ 512 ∧ rm.magic = 0x592717 ∧ rdAt 4 0 bs = 0x592717 ∧ 0 ≤ rm.numMappings ∧
-    rm.numMappings ≤ maxCountFor bs.length ∧ rm.numMappings = toSigned 32 (rdAt 4 4 bs) :=
+    bs.length ≥ 512 ∧ rm.magic = 0x592717 ∧ rdAt 4 0 bs = 0x592717 ∧ relmapCountOk bs.length rm.numMappings ∧
+    rm.numMappings = toSigned 32 (rdAt 4 4 bs) ∧ rm.mappings.length ≤ rm.numMappings.toNat :=
   parseRelMapFile_accept bs rm h
 
-example : maxCountFor 512 = 62 ∧ maxCountFor 524 = 64 ∧ maxCountFor 8192 = 62 := by decide
+/-- The count bound in numbers: an accepted count lies in 0..64, in 0..62 when the image is shorter than 524 bytes. -/
+theorem C20_relmap_count_bound (bs : Bytes) (rm : Model.RelMapFile) (h : Model.parseRelMapFile bs = .ok (some rm)) :
+    0 ≤ rm.numMappings ∧ rm.numMappings ≤ 64 ∧ (bs.length < 524 → rm.numMappings ≤ 62) ∧ rm.mappings.length ≤ 64 := by
+  obtain ⟨_, _, _, hc, _, hm⟩ := parseRelMapFile_accept bs rm h
+  have s12 : RelMapLayout.v12.size = 512 := by decide
+  have s16 : RelMapLayout.v16.size = 524 := by decide
+  have m12 : RelMapLayout.v12.maxMappings = 62 := rfl
+  have m16 : RelMapLayout.v16.maxMappings = 64 := rfl
+  unfold relmapCountOk relmapCountFits at hc
+  rw [s12, s16, m12, m16] at hc
+  omega
+
+set_option maxRecDepth 100000 in
+example : ∃ rm, Model.parseRelMapFile (encRelMap exMap16) = .ok (some rm) :=
+  ⟨_, by have := C20_relmap_v16 exMap16 (by decide +kernel) (by decide +kernel) []; simpa using this⟩
 
 /-- Lookups.  GetFilenode / GetOID return the first stored match, or 0 when there is none. -/
 theorem C20_lookup (ms : List (Nat × Nat)) (k : Nat) :
